@@ -146,15 +146,15 @@ func c13Worlds(seed uint64, n int) ([]*c13World, error) {
 // ---- requests ------------------------------------------------------------------------------------
 
 type c13Req struct {
-	W    int    `json:"w"`
-	Kind string `json:"kind"`
-	Tag  string `json:"tag"`
-	Text string `json:"text"`           // document / path / query / xpath text
-	At   string `json:"at,omitempty"`   // (valid) path of the selection the request is applied to
-	Sel  string `json:"sel,omitempty"`  // match: selector
+	W    int      `json:"w"`
+	Kind string   `json:"kind"`
+	Tag  string   `json:"tag"`
+	Text string   `json:"text"`           // document / path / query / xpath text
+	At   string   `json:"at,omitempty"`   // (valid) path of the selection the request is applied to
+	Sel  string   `json:"sel,omitempty"`  // match: selector
 	Base []string `json:"base,omitempty"` // match: schema idents of the base path from the root
 	Cand []string `json:"cand,omitempty"` // match: schema idents of the candidate path from the root
-	Val  int    `json:"val,omitempty"`  // setvalue: index in c13SetPool
+	Val  int      `json:"val,omitempty"`  // setvalue: index in c13SetPool
 }
 
 // c13MustErr: the mismatch classes the property names (an object where a list is declared, a scalar where a
@@ -181,7 +181,7 @@ type c13Resp struct {
 	Frame     string `json:"frame,omitempty"`
 	Msg       string `json:"msg,omitempty"`
 	Preserved bool   `json:"preserved"`
-	Changed   bool   `json:"changed"` // store differs from the original (informational)
+	Changed   bool   `json:"changed"`         // store differs from the original (informational)
 	Match     int    `json:"match,omitempty"` // match kind: 1 false, 2 true
 }
 
